@@ -45,6 +45,10 @@ INVARIANT Judge
 CHECK_DEADLOCK FALSE
 """
 
+# The recursive operators of the cursor model (eager loops) need a deep evaluation stack; the -Xss that common.run_tlc
+# passes through JAVA_TOOL_OPTIONS does not reach TLC's evaluating threads, the launcher's own variable does (measured).
+TLC_ENV = {"JDK_JAVA_OPTIONS": "-Xss512m"}
+
 MAX_REPORTED = 4        # violations written per failing predicate
 
 
@@ -84,7 +88,7 @@ def explore(run, binp):
     cfgk = dict(ext=EXT[pid], univ=UNIV[pid], extra="INVARIANT KeysKept\n" if pid == "C15" else "")
     # ---- 1. MC: the cursor model produces the list semantics on every tree of the bound
     for c in mcs:
-        r = run_tlc(MOD[pid] + "MC", MC_CFG % dict(cfgk, **c), timeout=2400, heap="8g")
+        r = run_tlc(MOD[pid] + "MC", MC_CFG % dict(cfgk, **c), timeout=2400, heap="8g", env=TLC_ENV)
         run.add_mc(MOD[pid] + "MC", r, c)
         if r.violated:
             raise Infra("model error: %sMC violates %s with %s (the cursor model no longer yields the list semantics)"
@@ -114,7 +118,7 @@ def run_gen(pid, cfg, seed):
     lines of concurrent workers can tear - the run is repeated with a single worker before giving up."""
     why = ""
     for workers in (None, 1):
-        r = run_tlc(MOD[pid] + "Gen", cfg, timeout=2400, heap="8g", args=["-seed", str(seed)], workers=workers)
+        r = run_tlc(MOD[pid] + "Gen", cfg, timeout=2400, heap="8g", args=["-seed", str(seed)], workers=workers, env=TLC_ENV)
         if r.violated:
             raise Infra("%sGen stopped: %s" % (MOD[pid], r.out[-1500:]))
         cases, tables, mids = r.json_prints("case"), r.json_prints("tables"), len(r.json_prints("mid"))
@@ -206,7 +210,7 @@ def judge_traces(run, traces, d, tag):
     with open(tf, "w") as f:
         json.dump({"traces": judged}, f)
     # a single worker: the judgements are printed lines, and lines of concurrent workers can tear
-    r = run_tlc(MOD[pid] + "Trace", TRACE_CFG % dict(ext=EXT[pid]), env={"TRACE_FILE": tf}, timeout=2400, heap="8g", workers=1)
+    r = run_tlc(MOD[pid] + "Trace", TRACE_CFG % dict(ext=EXT[pid]), env=dict(TLC_ENV, TRACE_FILE=tf), timeout=2400, heap="8g", workers=1)
     if r.violated:
         raise Infra("%sTrace stopped: %s" % (MOD[pid], r.out[-2000:]))
     done, ndrift, per_pred = set(), 0, {}
